@@ -46,6 +46,8 @@ def main():
     ap.add_argument("--dir", default="seeded",
                     help="seeded (property-breaking changes: exit 1 expected) or harmless "
                          "(behaviour-preserving rewrites: exit 0 expected)")
+    ap.add_argument("--seed", default=None, help="VERIF_SEED for the checks (default: the check's own default, 0)")
+    ap.add_argument("--out", default="RESULTS", help="results file stem under the directory (RESULTS.json / RESULTS.md)")
     ap.add_argument("--base", default=BASE, help="scratch directory for the workers' worktrees")
     ap.add_argument("ids", nargs="*")
     args = ap.parse_args()
@@ -53,7 +55,7 @@ def main():
     sdir = os.path.join(VERIF, args.dir)
     harmless = args.dir != "seeded"
     ids = args.ids or sorted(d for d in os.listdir(sdir) if os.path.isdir(os.path.join(sdir, d)))
-    rpath = os.path.join(sdir, "RESULTS.json")
+    rpath = os.path.join(sdir, args.out + ".json")
     results = json.load(open(rpath)) if os.path.exists(rpath) else {}
     q = queue.Queue()
     for sid in ids:
@@ -77,7 +79,7 @@ def main():
                 t0 = time.time()
                 try:
                     r = sh(f"./check {prop} --tier {args.tier}", cwd=f"{d}/verif", timeout=3600,
-                           env=dict(os.environ, VERIF_REPO=f"{d}/repo"))
+                           env=dict(os.environ, VERIF_REPO=f"{d}/repo", **({"VERIF_SEED": str(args.seed)} if args.seed is not None else {})))
                     lines = [l for l in r.stdout.split("\n") if l.startswith(("VIOLATION", "KNOWN-FINDING", "CHECK-ERROR"))]
                     status = {0: "MISSED", 1: "caught"}.get(r.returncode, f"exit {r.returncode}")
                     if harmless:
@@ -118,7 +120,8 @@ def main():
         loud = [s for s in ids if results.get(s, {}).get("status") != "quiet"]
         print(f"{len(ids)} harmless changes run, {len(loud)} not quiet: {loud}")
         return
-    write_md(sdir, results)
+    if args.out == "RESULTS":
+        write_md(sdir, results)
     missed = [s for s in ids if results.get(s, {}).get("status") == "MISSED"]
     print(f"{len(ids)} seeded changes run, {len(missed)} missed: {missed}")
 
